@@ -73,6 +73,7 @@ type worldJ struct {
 	ReadTimeoutMs int            `json:"readTimeoutMs,omitempty"`
 	BufferSize    int64          `json:"bufferSize,omitempty"`
 	Probe         bool           `json:"probe,omitempty"`
+	AllViews      bool           `json:"allViews,omitempty"` // reference images for every directory of the tree, both modes
 	LogOps        bool           `json:"logOps,omitempty"`
 }
 
@@ -111,6 +112,7 @@ type sessionEnv struct {
 	srvErr  chan error
 	index   int
 	viewGen int
+	chunkNo int
 }
 
 func cmdSession(args []string) error {
@@ -334,7 +336,23 @@ func runWorld(pt *protoTable, wj *worldJ, em *emitter, index int) error {
 func (env *sessionEnv) buildViews() []map[string]interface{} {
 	env.viewGen++
 	viewsOut := []map[string]interface{}{}
-	for _, v := range env.wj.Views {
+	decl := env.wj.Views
+	if env.wj.AllViews {
+		decl = nil
+		filepath.Walk(env.w.root, func(p string, info os.FileInfo, err error) error {
+			if err != nil || !info.IsDir() {
+				return nil
+			}
+			rel, _ := filepath.Rel(env.w.root, p)
+			var segs []string
+			if rel != "." {
+				segs = strings.Split(rel, "/")
+			}
+			decl = append(decl, viewJ{Vk: "dvd", P: segs}, viewJ{Vk: "ps3", P: segs})
+			return nil
+		})
+	}
+	for _, v := range decl {
 		name := fmt.Sprintf("viso:%s:/%s#%d", v.Vk, strings.Join(v.P, "/"), env.viewGen)
 		ref, err := pfs.NewVirtualISO(afero.NewBasePathFs(afero.NewOsFs(), env.w.root), "/"+filepath.Join(v.P...), v.Vk == "ps3")
 		if err != nil {
@@ -344,7 +362,7 @@ func (env *sessionEnv) buildViews() []map[string]interface{} {
 		ref.Close()
 		if err != nil {
 			// the library view cannot be read sequentially: no reference; recorded so that TLC rejects an open
-			viewsOut = append(viewsOut, map[string]interface{}{"vk": v.Vk, "p": nonNil(v.P), "cid": "?unreadable:" + err.Error(), "size": pos(-1)})
+			viewsOut = append(viewsOut, map[string]interface{}{"vk": v.Vk, "p": sanitizeAll(v.P), "cid": "?unreadable:" + err.Error(), "size": pos(-1)})
 			continue
 		}
 		mask := v.Mask
@@ -352,9 +370,17 @@ func (env *sessionEnv) buildViews() []map[string]interface{} {
 			mask = varMask(v.Vk == "ps3")
 		}
 		env.reg.add(&memSource{name: name, data: data, mask: mask})
-		viewsOut = append(viewsOut, map[string]interface{}{"vk": v.Vk, "p": nonNil(v.P), "cid": name, "size": pos(int64(len(data)))})
+		viewsOut = append(viewsOut, map[string]interface{}{"vk": v.Vk, "p": sanitizeAll(v.P), "cid": name, "size": pos(int64(len(data)))})
 	}
 	return viewsOut
+}
+
+func sanitizeAll(s []string) []string {
+	out := make([]string, len(s))
+	for i, x := range s {
+		out[i] = sanitize(x)
+	}
+	return out
 }
 
 func nonNil(s []string) []string {
@@ -378,13 +404,15 @@ func (env *sessionEnv) connect(cj *connJ) *memConn {
 	return c
 }
 
-func chunkBytes(name string, n int) []byte {
+// chunkBytes: deterministic payload for a named chunk. The first byte is unique
+// per chunk within a world (tag), which makes every concatenation of chunks
+// uniquely decodable by the snapshot's decomposition.
+func chunkBytes(name string, n int, tag byte) []byte {
 	r := rand.New(rand.NewSource(int64(srcID(name))<<8 | 1))
 	b := make([]byte, n)
 	r.Read(b)
-	// keep the first byte pair away from valid opcodes and make chunks distinct from patterns
 	if n > 0 {
-		b[0] = 0xC3
+		b[0] = tag
 	}
 	return b
 }
@@ -392,7 +420,7 @@ func chunkBytes(name string, n int) []byte {
 // buildFrame returns the bytes to send and the abstract request for the trace.
 func (env *sessionEnv) buildFrame(r *reqJ) ([]byte, map[string]interface{}, error) {
 	req := map[string]interface{}{"op": r.Op, "path": []string{}, "limit": pos(0), "off": pos(0), "start": 0, "count": 0,
-		"plen": 0, "chunk": "", "hugeArgs": false, "of": "", "cut": 0}
+		"plen": 0, "chunk": "", "hugeArgs": false, "of": "", "cut": 0, "bad": []string{}}
 	od := env.pt.byName[r.Op]
 	if od == nil {
 		return nil, nil, fmt.Errorf("op %q not in protocol table", r.Op)
@@ -410,6 +438,7 @@ func (env *sessionEnv) buildFrame(r *reqJ) ([]byte, map[string]interface{}, erro
 			follow = b
 		}
 		req["path"] = splitSegs(follow)
+		req["bad"] = badSegs(follow)
 	case "payload":
 		if r.PayloadHex != "" {
 			b, err := hex.DecodeString(r.PayloadHex)
@@ -418,7 +447,8 @@ func (env *sessionEnv) buildFrame(r *reqJ) ([]byte, map[string]interface{}, erro
 			}
 			follow = b
 		} else {
-			follow = chunkBytes(r.Chunk, r.Plen)
+			env.chunkNo++
+			follow = chunkBytes(r.Chunk, r.Plen, byte(env.chunkNo%255+1))
 		}
 		if len(follow) > 0 {
 			env.reg.add(&memSource{name: r.Chunk, data: follow})
@@ -493,7 +523,7 @@ func (env *sessionEnv) doReq(c *memConn, cj *connJ, r *reqJ) bool {
 		b := make([]byte, env.pt.CommandLen)
 		b[0], b[1] = byte(code>>8), byte(code)
 		return env.exchange(c, cj, "BAD_OPCODE", map[string]interface{}{"op": "BAD_OPCODE", "path": []string{}, "limit": pos(0), "off": pos(0),
-			"start": 0, "count": 0, "plen": 0, "chunk": "", "hugeArgs": false, "of": "", "cut": 0}, b, nil)
+			"start": 0, "count": 0, "plen": 0, "chunk": "", "hugeArgs": false, "of": "", "cut": 0, "bad": []string{}}, b, nil)
 	}
 	frameBytes, req, err := env.buildFrame(r)
 	if err != nil {
@@ -501,7 +531,7 @@ func (env *sessionEnv) doReq(c *memConn, cj *connJ, r *reqJ) bool {
 	}
 	if r.Cut > 0 && r.Cut < len(frameBytes) {
 		return env.exchange(c, cj, "TRUNCATED", map[string]interface{}{"op": "TRUNCATED", "path": []string{}, "limit": pos(0), "off": pos(0),
-			"start": 0, "count": 0, "plen": 0, "chunk": "", "hugeArgs": false, "of": r.Op, "cut": r.Cut}, frameBytes[:r.Cut], nil)
+			"start": 0, "count": 0, "plen": 0, "chunk": "", "hugeArgs": false, "of": r.Op, "cut": r.Cut, "bad": []string{}}, frameBytes[:r.Cut], nil)
 	}
 	var hint *int64
 	if _, ok := env.hasTail(r.Op, "off"); ok && r.Off < 1<<62 {
@@ -527,13 +557,14 @@ func (env *sessionEnv) hasTail(op, name string) (fieldDef, bool) {
 // doFrame sends a frame obtained by re-framing a raw byte stream.
 func (env *sessionEnv) doFrame(c *memConn, cj *connJ, fr frame) bool {
 	req := map[string]interface{}{"op": fr.Op, "path": []string{}, "limit": pos(0), "off": pos(0), "start": 0, "count": 0,
-		"plen": 0, "chunk": "", "hugeArgs": false, "of": fr.Of, "cut": len(fr.Bytes)}
+		"plen": 0, "chunk": "", "hugeArgs": false, "of": fr.Of, "cut": len(fr.Bytes), "bad": []string{}}
 	var hint *int64
 	if od := env.pt.byName[fr.Op]; od != nil {
 		huge := false
 		switch od.Follow {
 		case "path":
 			req["path"] = splitSegs(fr.Follow)
+			req["bad"] = badSegs(fr.Follow)
 		case "payload":
 			name := fmt.Sprintf("raw%x", srcID(string(fr.Follow))^uint32(len(fr.Follow)))
 			if len(fr.Follow) > 0 {
